@@ -733,6 +733,12 @@ class Executor:
             if getattr(self, "in_spec", 0):
                 return base.get(i)      # specification terms are total (no IndexError inside contracts)
             inb = self.in_bounds(i, n)
+            if getattr(self, "comp_depth", 0) and not (isinstance(idx, int) and idx < 0):
+                # inside a comprehension over a symbolic sequence the bound variable is a fresh constant constrained only
+                # by its range (on the path condition right now): proving `inb` here is the universally quantified check
+                self.oblige(st, f"{self.prop}.{self.current.short if self.current else '?'}.index-in-range.L{getattr(node, 'lineno', 0)}",
+                            inb, "no-raise", getattr(node, "lineno", None), "subscript inside comprehension stays in range")
+                return base.get(i)
             # negative index support for concrete negatives
             if isinstance(idx, int) and idx < 0:
                 return base.get(z3ify(n) + idx)
@@ -850,10 +856,12 @@ class Executor:
             try:
                 self.assign_target(g.target, it.get(k), st, fr)
                 st.pc.append(z3.And(k >= 0, k < z3ify(it.len)))
+                self.comp_depth = getattr(self, "comp_depth", 0) + 1
                 try:
                     e = self.ev(node.elt, st, fr)
                 finally:
                     st.pc.pop()
+                    self.comp_depth -= 1
             finally:
                 for kk in list(st.locals):
                     if kk not in saved:
@@ -1209,13 +1217,16 @@ class BoundBuiltin:
         if isinstance(b, Seq):
             if n == "append":
                 i = z3ify(b.len)
-                b.arr = z3.Store(b.arr, i, z3ify(args[0]))
-                b.len = z3.simplify(i + 1) if is_sym(i) else b.len + 1
+                v = args[0].term if hasattr(args[0], "term") else z3ify(args[0])
+                b.arr = z3.Store(b.arr, i, v)
+                b.len = z3.simplify(i + 1)
                 return None
             if n in ("copy", "clone"):
                 return Seq(b.len, b.arr, b.elem, b.label + ".copy", b.wrap)
             if n in ("unsqueeze", "squeeze", "to", "detach", "cpu", "long", "float"):
                 return b
+            if ("seqmethod." + n) in ex.lib:
+                return ex.lib["seqmethod." + n](ex, st, [b] + list(args), kwargs)
         if is_sym(b):
             if n == "item":
                 return b
